@@ -160,12 +160,10 @@ def r3(ctx):
             a = chk.args
             rep.check(len(a) >= 3 and tform(a[1]) == P("key") and lookup in atoms(a[2]), "Cache::get:expiry-args", "check_if_expired(key, looked-up record)", "check_if_expired is called on something else than the looked-up record/key", g.loc())
     # (c) command layer: first store access of each presence-dependent command is Cache::get on the same key
-    for m in ("add", "replace", "append", "prepend", "add_delta", "get"):
+    for m, argnames in (("add", ["self", "key", "record"]), ("replace", ["self", "key", "record"]), ("append", ["self", "key", "new_record"]), ("prepend", ["self", "key", "new_record"]), ("increment", ["self", "header", "key", "delta"]), ("decrement", ["self", "header", "key", "delta"]), ("get", ["self", "key"])):
         b = f.one(MEMC + "::" + m)
         rep.analysed(b)
         I = Interp(f)
-        nargs = b.arg_count
-        argnames = [b.local_name(i) or "a%d" % i for i in b.arg_locals()]
         paths = I.run(b, [P(n) for n in argnames])
         rep.evaluations += len(paths)
         ok = True
